@@ -83,7 +83,7 @@ def gen_box_pattern(rng, world, depth, allow_select):
             attrs[a] = ["lit", rng.randint(0, 1)]
         elif a == "tags":
             k = rng.random()
-            pool = [rng.choice("xyz") for _ in range(rng.randint(1, 3))]
+            pool = [rng.choice("xyz") for _ in range(rng.choice([0, 1, 2, 3]))]
             attrs[a] = ["lit", rng.choice("xyz")] if k < 0.5 else ["anylit", pool] if k < 0.75 else ["alllit", pool]
         elif a == "lid":
             k = rng.random()
@@ -95,7 +95,7 @@ def gen_box_pattern(rng, world, depth, allow_select):
                 attrs[a] = ["litobj", rng.randrange(n)]
         else:
             k = rng.random()
-            cand = [rng.randrange(n) for _ in range(rng.randint(1, 3))]
+            cand = [rng.randrange(n) for _ in range(rng.choice([0, 1, 1, 2, 2, 3]))]      # the empty list is a legal literal
             if k < 0.18:
                 attrs[a] = ["any", cand]
             elif k < 0.36:
